@@ -30,7 +30,7 @@ META = dict(
     property="C31",
     level="fault_enumeration",
     technique="op-list histories over two real AMP peers on a harness-owned wire; timeline oracle computed from the decoded wire; connection loss enumerated at every byte boundary of fixed and generated histories",
-    level_text="Generated histories (calls of 4 command kinds from both peers; responders that answer at once, later in any order, never, with declared, fatal-declared or undeclared errors; re-entrant follow-up calls from result callbacks; chunked / byte-wise delivery; loss of either side at any op) are run against two real amp.AMP instances. For fixed scenario histories and for a sample of generated ones the loss is additionally injected at EVERY byte boundary of the whole exchange, for victim A, B and both. For each call the oracle derives from the recorded wire and delivery timeline the exact step and value it must fire with: own answer / own declared error / UnknownRemoteError / UnhandledCommand, else the loss reason object of its side at the loss step; calls after loss must have fired before callRemote returns. Responder invocations are checked the same way (exactly once, at the step the command box became complete).",
+    level_text="Generated histories (calls of 4 command kinds from both peers; responders that answer at once, later in any order, never, with declared, fatal-declared or undeclared errors, and with exceptions that are (direct or indirect) SUBCLASSES of a declared / fatal-declared error, which must reach the caller as that declared error; re-entrant follow-up calls from result callbacks; chunked / byte-wise delivery; loss of either side at any op) are run against two real amp.AMP instances. For fixed scenario histories and for a sample of generated ones the loss is additionally injected at EVERY byte boundary of the whole exchange, for victim A, B and both. For each call the oracle derives from the recorded wire and delivery timeline the exact step and value it must fire with: own answer / own declared error / UnknownRemoteError / UnhandledCommand, else the loss reason object of its side at the loss step; calls after loss must have fired before callRemote returns. Responder invocations are checked the same way (exactly once, at the step the command box became complete).",
     level_note="Trusted: the in-memory transport (modelled on abstract.FileDescriptor: loseConnection stops reading, flushes, then both sides get ConnectionDone), the 25-line reference box decoder, the test-double responders. Not covered: TLS, protocol switching, responders returning unserialisable values, real sockets. Loss is enumerated per byte boundary of delivered data, not inside a single dataReceived call.",
     design_ref="§5 C31",
     rule="case = op list (+ loss point). non-trivial = at some step >=3 calls of one history were in flight, the answers reached a caller in an order different from the order of its calls, and a connection loss failed at least one pending call; distinct by (ops, loss_at).",
@@ -84,6 +84,20 @@ def kit():
     class Boom(Exception):
         pass
 
+    # Raising an instance of a SUBCLASS of a declared error is raising that
+    # declared error (Failure.trap semantics; Command.errors docstring).
+    class SubA(DeclaredA):
+        pass
+
+    class _MidB(DeclaredB):
+        pass
+
+    class SubB(_MidB):
+        pass
+
+    class SubFatal(FatalE):
+        pass
+
     class Echo(amp.Command):
         commandName = b"echo"
         arguments = [(b"id", amp.Integer()), (b"pad", amp.String())]
@@ -128,11 +142,15 @@ def kit():
             return self.h.responder(self.side, "quiet", id, pad)
 
     _K.update(amp=amp, DeclaredA=DeclaredA, DeclaredB=DeclaredB, FatalE=FatalE, Boom=Boom,
+              SubA=SubA, SubB=SubB, SubFatal=SubFatal,
               cmds=dict(echo=Echo, other=Other, quiet=Quiet, unknown=Unknown), Peer=Peer)
     return _K
 
 
 OTHER = {"A": "B", "B": "A"}
+# outcome -> (declared outcome it counts as, class the CALLER must see)
+DECLARED = {"declA": ("declA", "DeclaredA"), "declB": ("declB", "DeclaredB"), "fatal": ("fatal", "FatalE"),
+            "subA": ("declA", "DeclaredA"), "subB": ("declB", "DeclaredB"), "subFatal": ("fatal", "FatalE")}
 ERR_CODES = {("echo", "declA"): b"DECL_A", ("echo", "declB"): b"DECL_B", ("echo", "fatal"): b"FATAL",
              ("other", "declA"): b"OTHER_A", ("other", "declB"): b"DECL_B", ("other", "fatal"): b"FATAL"}
 
@@ -226,6 +244,12 @@ class Harness:
             return k["DeclaredB"]("decl-b-%d" % call.id)
         if outcome == "fatal":
             return k["FatalE"]("fatal-%d" % call.id)
+        if outcome == "subA":
+            return k["SubA"]("sub-a-%d" % call.id)
+        if outcome == "subB":
+            return k["SubB"]("sub-b-%d" % call.id)
+        if outcome == "subFatal":
+            return k["SubFatal"]("sub-fatal-%d" % call.id)
         if outcome == "boom":
             return k["Boom"]("boom-%d" % call.id)
         raise ValueError(outcome)
@@ -365,7 +389,7 @@ class Harness:
             return
         cid = s.pending.pop(j % len(s.pending))
         call = self.by_id[cid]
-        if call.cmd == "quiet" and outcome in ("declA", "declB", "fatal"):
+        if call.cmd == "quiet" and outcome in DECLARED:
             outcome = "boom"
         self.step()
         call.outcome = outcome
@@ -383,7 +407,7 @@ class Harness:
             kind = op[0]
             if kind == "call":
                 _, side, cmd, beh, pad, chain = op
-                if cmd in ("quiet", "unknown") and beh in ("declA", "declB", "fatal"):
+                if cmd in ("quiet", "unknown") and beh in DECLARED:
                     beh = "boom" if cmd == "quiet" else "ok"
                 self.step()
                 self.do_call(side, cmd, beh, pad, chain)
@@ -505,7 +529,7 @@ def judge(ctx, case, h):
                 elif outcome == "unhandled":
                     good = abox.get(b"_error_code") == b"UNHANDLED"
                 else:
-                    good = abox.get(b"_error_code") == ERR_CODES[(c.cmd, outcome)]
+                    good = abox.get(b"_error_code") == ERR_CODES[(c.cmd, DECLARED[outcome][0])]
                 if not good:
                     V("answer-box-content", case, f"call {c.id} outcome {outcome}: box {abox}")
                 tb = first_reaching(sy.timeline, aend)
@@ -516,8 +540,8 @@ def judge(ctx, case, h):
                     if c.cmd == "echo":
                         res = dict(id=res["id"], who=res["who"])
                     want = ("ok", res)
-                elif outcome in ("declA", "declB", "fatal"):
-                    want = ({"declA": "DeclaredA", "declB": "DeclaredB", "fatal": "FatalE"}[outcome],
+                elif outcome in DECLARED:
+                    want = (DECLARED[outcome][1],
                             h.result_for(c, outcome).args)
                 elif outcome == "boom":
                     want = ("UnknownRemoteError", "Unknown Error")
@@ -595,6 +619,13 @@ def one_run(ctx, case, count=True):
             if c.fired[0][1] == "err" and c.fired[0][2].value in (h.sides["A"].lost_exc, h.sides["B"].lost_exc):
                 d = "loss"
             ctx.count("result " + d)
+    nsub = sum(1 for c in live if c.outcome in ("subA", "subB", "subFatal"))
+    if nsub:
+        ctx.count("runs with a responder raising a subclass of a declared error")
+        ctx.count("subclass-of-declared errors raised", nsub)
+        ctx.count("subclass-of-declared errors delivered to the caller",
+                  sum(1 for c in live if c.outcome in ("subA", "subB", "subFatal") and c.fired
+                      and c.fired[0][1] == "err" and type(c.fired[0][2].value).__name__ in ("DeclaredA", "DeclaredB", "FatalE")))
     if any(s.closing for s in h.sides.values()):
         ctx.count("a peer closed the connection itself (QuitBox / unhandledError)")
     ctx.count("calls", len(h.calls))
@@ -626,8 +657,9 @@ def run_case(ctx, case):
 
 SIDES = st.sampled_from(["A", "B"])
 CMDS = st.sampled_from(["echo", "echo", "other", "other", "quiet", "unknown"])
-BEHS = st.sampled_from(["ok", "ok", "later", "later", "later", "never", "declA", "declB", "fatal", "boom"])
-OUTCOMES = st.sampled_from(["ok", "ok", "ok", "declA", "declB", "fatal", "boom"])
+BEHS = st.sampled_from(["ok", "ok", "later", "later", "later", "never", "declA", "declB", "fatal", "boom",
+                        "subA", "subB", "subFatal"])
+OUTCOMES = st.sampled_from(["ok", "ok", "ok", "declA", "declB", "fatal", "boom", "subA", "subB", "subFatal"])
 PADS = st.one_of(st.integers(0, 12), st.sampled_from([0, 1, 40, 300]))
 CHAIN = st.sampled_from([None, None, None, "echo"])
 
@@ -649,7 +681,7 @@ def burst(draw):
     ops = []
     for _ in range(n):
         ops.append(["call", side, draw(st.sampled_from(["echo", "other"])),
-                    draw(st.sampled_from(["later", "later", "later", "ok", "never", "declA"])),
+                    draw(st.sampled_from(["later", "later", "later", "ok", "never", "declA", "subA"])),
                     draw(PADS), draw(CHAIN)])
         if draw(st.integers(0, 3)) == 0:
             ops.append(["call", OTHER[side], "echo", draw(BEHS), draw(PADS), None])
@@ -715,6 +747,14 @@ FIXED = [
      ["fire", "A", 0, "boom"], ["fire", "B", 0, "ok"], ["deliver", "A", 0], ["deliver", "B", 0],
      _c("A", "echo", "ok"), _c("B", "echo", "ok")],
 ]
+
+
+FIXED.append(
+    # responders failing with SUBCLASSES of declared errors (at once and later)
+    # while other calls are outstanding in both directions
+    [_c("A", "echo", "later", 1), _c("A", "other", "later"), _c("A", "echo", "subB"), _c("B", "echo", "later"),
+     ["deliver", "A", 0], ["deliver", "B", 0], ["fire", "B", 1, "subA"], ["deliver", "B", 0],
+     ["fire", "B", 0, "ok"], ["fire", "A", 0, "subFatal"], ["deliver", "B", 0], ["deliver", "A", 0]])
 
 
 def _enum_fixed(ctx):
